@@ -15,6 +15,9 @@ pub struct OpRec {
     pub out: Out,
     /// timestamp the store reported having resolved for this call (0 = none)
     pub ts: u64,
+    /// device-log length when the call was invoked / had returned
+    pub log_invoke: usize,
+    pub log_response: usize,
 }
 
 pub fn key_of(op: &Op) -> Option<u8> {
